@@ -390,6 +390,9 @@ func propCliBondgo(c GoCase) pbt.Outcome {
 		mode = "mpm"
 	}
 	out.Labels = append(out.Labels, "mode="+mode, fmt.Sprintf("rsize=%d", c.Rsize), fmt.Sprintf("workers=%d", c.Workers))
+	if c.ValueArgs {
+		out.Labels = append(out.Labels, "go-value-args")
+	}
 	machine := arte["file:m.json"] + arte["file:bm.json"]
 	if machine == "" {
 		out.Labels = append(out.Labels, "bondgo-rejected")
@@ -402,7 +405,7 @@ func propCliBondgo(c GoCase) pbt.Outcome {
 	return out
 }
 
-const goRule = "Go-subset programs from a grammar of what pkg/bondgo accepts: 1..3 register + 0..2 memory variables per function, = + * ++ -- if/else(==) for{}, IOWrite on an output made with bondgo.Make; with -mpm 1..3 worker goroutines fed through channels, each with its own output; register size 8/16/32; outputs -save-assembly, -save-machine | -save-bondmachine, optionally -show-requirements on stdout; N fresh processes (quick 6, thorough 30), GOMAXPROCS in {1,2,16}; a run that hits the 6 s timeout is dropped (hangs are C12's business), fewer than 2 completed runs = excluded bondgo-timeout; non-trivial = a machine was written, main has >= 2 variables and (-mpm) there are >= 2 processors"
+const goRule = "Go-subset programs from a grammar of what pkg/bondgo accepts: 1..3 register + 0..2 memory variables per function, = + * ++ -- if/else(==) for{}, IOWrite on an output made with bondgo.Make; with -mpm 1..3 worker goroutines fed through channels, each with its own output (1 case in 5 also passes a value argument to `go f(c, k)`, a form bondgo refuses as a whole: C12's open finding go-value-args); register size 8/16/32; outputs -save-assembly, -save-machine | -save-bondmachine, optionally -show-requirements on stdout; N fresh processes (quick 6, thorough 30), GOMAXPROCS in {1,2,16}; a run that hits the 6 s timeout is dropped (hangs are C12's business), fewer than 2 completed runs = excluded bondgo-timeout; non-trivial = a machine was written, main has >= 2 variables and (-mpm) there are >= 2 processors"
 
 // ---------------------------------------------------------------------------
 // bondmachine -create-verilog
